@@ -34,7 +34,7 @@ def run_one(args):
     out = []
     for i in ids:
         prop = i.split("-")[0]
-        harmless = _re.search(r"-h4?m\d", i) is not None
+        harmless = _re.search(r"-h\d?m\d", i) is not None
         subprocess.run(["git", "-C", repo, "checkout", "--", "."])
         subprocess.run(["git", "-C", repo, "clean", "-fdq", "src", "tests"])
         p = subprocess.run(["git", "-C", repo, "apply", os.path.join(VERIF, "seeded", i, "patch.diff")], stdout=subprocess.PIPE, stderr=subprocess.STDOUT, text=True)
@@ -85,7 +85,7 @@ def main():
     a = sys.argv[1:]
     tier = a[a.index("--tier") + 1] if "--tier" in a else "quick"
     ids = sorted(d for d in os.listdir(os.path.join(VERIF, "seeded")) if os.path.isdir(os.path.join(VERIF, "seeded", d)))
-    harmless = lambda i: re.search(r"-h4?m\d", i) is not None  # noqa
+    harmless = lambda i: re.search(r"-h\d?m\d", i) is not None  # noqa
     if "--harmless" in a:
         ids = [i for i in ids if harmless(i)]
     elif "--breaking" in a:
